@@ -295,6 +295,24 @@ pub fn s_library(level: usize) -> Vec<Gadget> {
             }
         }
     }
+    // tight budgets: blocking / padding fractions that actually bind (elapsed time and packet counts matter)
+    for (nm, budget) in [("frac0.5", (0u64, 0.0, 0u64, 0.5)), ("allow2us,frac0.25", (0, 0.0, 2, 0.25))] {
+        for again in [BlockingEnd, NormalSent] {
+            let mut t0: EnumMap<Event, Vec<Trans>> = enum_map! { _ => vec![] };
+            t0[NormalSent] = vec![Trans(1, 1.0)];
+            let mut t1: EnumMap<Event, Vec<Trans>> = enum_map! { _ => vec![] };
+            t1[again] = vec![Trans(1, 1.0)];
+            lib.push(Gadget { name: format!("tightblk({nm},to1,dur2,{again:?})"), m: mk(budget, vec![st_map(t0, None, (None, None)), st_map(t1, Some(Action::BlockOutgoing { bypass: false, replace: false, timeout: c(1.0), duration: c(2.0), limit: Some(c(6.0)) }), (None, None))]), kind: 'b', zero_dur: false });
+        }
+    }
+    for (nm, budget) in [("allow1,frac0.5", (1u64, 0.5, 0u64, 0.0)), ("frac0.25", (0, 0.25, 0, 0.0))] {
+        let mut t0: EnumMap<Event, Vec<Trans>> = enum_map! { _ => vec![] };
+        t0[NormalSent] = vec![Trans(1, 1.0)];
+        let mut t1: EnumMap<Event, Vec<Trans>> = enum_map! { _ => vec![] };
+        t1[PaddingSent] = vec![Trans(1, 1.0)];
+        t1[NormalSent] = vec![Trans(1, 1.0)];
+        lib.push(Gadget { name: format!("tightpad({nm},to1)"), m: mk(budget, vec![st_map(t0, None, (None, None)), st_map(t1, Some(Action::SendPadding { bypass: false, replace: false, timeout: c(1.0), limit: Some(c(6.0)) }), (None, None))]), kind: 'p', zero_dur: false });
+    }
     // blockers triggered by a received packet (so that both sides block in one run)
     for (bp, rp) in flags {
         lib.push(Gadget { name: format!("blkrecv(to1,dur2,by{},rp{})", bp as u8, rp as u8), m: gadget(TunnelRecv, Action::BlockOutgoing { bypass: bp, replace: rp, timeout: c(1.0), duration: c(2.0), limit: Some(c(2.0)) }, None, None), kind: 'b', zero_dur: false });
